@@ -167,6 +167,7 @@ func CmdCheck(args []string) int {
 		return fail("cannot load contracts: " + err.Error())
 	}
 	e.MakeReplayer(*verif, 60)
+	e.Tier = *tier
 	loadSecs := time.Since(t0).Seconds()
 	// functions in the slice: tagged with the property, closed under contract use
 	var work []string
@@ -240,6 +241,9 @@ func CmdCheck(args []string) int {
 		}
 		if r.Spec != nil && r.Spec.Trusted {
 			trusted["trusted contract: "+ShortKey(r.Key)] = true
+		}
+		for _, n := range r.SkippedThorough {
+			trusted["clause proved in the thorough tier only (assumed by callers in the quick tier): "+ShortKey(r.Key)+"#post:"+n] = true
 		}
 		if r.Err != "" {
 			engineErrs = append(engineErrs, ShortKey(r.Key)+": "+r.Err)
